@@ -19,11 +19,12 @@ import (
 )
 
 type c20Model struct {
-	Text    string   `json:"text"`
-	Apps    []string `json:"apps"`
-	Eps     []string `json:"eps"` // "App <- Ep"
-	Traits  []string `json:"traits"`
-	OldText string   `json:"old_text,omitempty"`
+	Text    string            `json:"text"`
+	Apps    []string          `json:"apps"`
+	Eps     []string          `json:"eps"` // "App <- Ep"
+	Traits  []string          `json:"traits"`
+	OldText string            `json:"old_text,omitempty"`
+	Files   map[string]string `json:"files,omitempty"` // further files beside m.sysl (imported ones)
 }
 
 func genUntidyModel(r *Rand) *c20Model {
@@ -204,7 +205,14 @@ func c20Corpus() []*c20Model {
 	mk := func(text string, apps []string, eps []string, traits ...string) *c20Model {
 		return &c20Model{Text: text, OldText: text, Apps: apps, Eps: eps, Traits: traits}
 	}
+	diamond := mk("import a\nimport b\nAlpha:\n    aOp0:\n        Beta <- bOp0\n        Alpha <- aOp1\n    aOp1:\n        Alpha <- aOp0\nBeta:\n    bOp0:\n        Alpha <- aOp0\nProject:\n    Proj:\n        Alpha\n        Beta\n",
+		[]string{"Alpha", "Beta"}, []string{"Alpha <- aOp0", "Alpha <- aOp1", "Beta <- bOp0"}, "import-diamond-with-chain", "call-cycle")
+	diamond.Files = map[string]string{
+		"a.sysl": "import shared\nA:\n    x:\n        ...\n", "b.sysl": "import shared\nimport l2\nB:\n    x:\n        ...\n",
+		"shared.sysl": "import l1\nShared:\n    x:\n        ...\n", "l1.sysl": "import l2\nL1:\n    x:\n        ...\n",
+		"l2.sysl": "import l3\nL2:\n    x:\n        ...\n", "l3.sysl": "L3:\n    x:\n        ...\n"}
 	return []*c20Model{
+		diamond,
 		mk("Alpha:\n    aOp0:\n        Beta <- bOp0\nBeta:\n    bOp0 [~hidden]:\n        Gamma <- gOp0\nGamma:\n    gOp0 [~hidden]:\n        Beta <- bOp0\n"+
 			"Project:\n    Proj [passthrough=[\"Beta\", \"Gamma\"]]:\n        Alpha\n",
 			[]string{"Alpha", "Beta", "Gamma"}, []string{"Alpha <- aOp0", "Beta <- bOp0"}, "passthrough-cycle-all-hidden"),
@@ -231,6 +239,15 @@ func c20Commands(r *Rand, m *c20Model) []c20Cmd {
 			add("sd", "sd", "-s", e, "-o", "sd.puml", "m.sysl")
 		}
 	}
+	if len(m.Eps) >= 2 {
+		// one diagram for two starting endpoints (they may lie on one call cycle)
+		i := r.Intn(len(m.Eps))
+		j := (i + 1 + r.Intn(len(m.Eps)-1)) % len(m.Eps)
+		add("sd-two-starts", "sd", "-s", m.Eps[i], "-s", m.Eps[j], "-o", "sd2.puml", "m.sysl")
+	}
+	// the global option that switches the duplicate-import version check off
+	add("validate-no-version-check", "--no-different-version-check", "validate", "m.sysl")
+	add("pb-no-version-check", "--no-different-version-check", "pb", "--mode", "textpb", "-o", "outnv.textpb", "m.sysl")
 	add("ints", "ints", "-j", "Project", "-o", "ints_%(epname).puml", "m.sysl")
 	add("ints-clustered", "ints", "-j", "Project", "--clustered", "-o", "intc_%(epname).puml", "m.sysl")
 	add("ints-epa", "ints", "-j", "Project", "--epa", "-o", "epa_%(epname).puml", "m.sysl")
@@ -332,6 +349,9 @@ func runC20(res *Result, tier string, rnd *Rand, replay string) {
 			_ = os.MkdirAll(dir, 0o755)
 			_ = os.WriteFile(filepath.Join(dir, "m.sysl"), []byte(c.Model.Text), 0o644)
 			_ = os.WriteFile(filepath.Join(dir, "old.sysl"), []byte(c.Model.OldText), 0o644)
+			for fn, ft := range c.Model.Files {
+				_ = os.WriteFile(filepath.Join(dir, fn), []byte(ft), 0o644)
+			}
 			ctx, cancel := context.WithTimeout(context.Background(), 90*time.Second)
 			defer cancel()
 			// a hard cap on the address space: a command that recurses without end fails fast with a runtime
